@@ -572,9 +572,9 @@ def correspondence(ctx):
             radius = rng.randint(1, 3) * (1.0 if rel else rng.choice(es)) + rng.choice([0.0, 1e-12, -1e-12, 1e-10, 2e-10])
         else:
             radius = rng.uniform(0.3, 3.0 * L)
-        if not rel and rng.random() < 0.3:
+        if not rel and rng.random() < 0.5:
             # the same filter in other length units (exact power-of-two factor on element sizes AND radius): same kernel
-            fu = 2.0 ** rng.choice([-33, -30, -20, 20])
+            fu = 2.0 ** rng.choice([-36, -33, -33, -30, -20, 20])
             es, radius = [v * fu for v in es], radius * fu
             ctx.branch("radius.absolute.rescaled_units")
         ds = [1.0, 1.0, 1.0] if rel else es
@@ -652,7 +652,7 @@ def correspondence(ctx):
 
     # ---- 4. DensityFilter -----------------------------------------------------------------------
     reqs, outs = [], []
-    for t in range(60 if quick else 500):
+    for t in range(100 if quick else 500):
         dom = gen_dom(rng)
         if t % 7 == 0:
             dom = [rng.randint(3, 7), rng.randint(3, 7), 0]
@@ -665,6 +665,15 @@ def correspondence(ctx):
             # and of any distance table sit exactly there
             m_ = rng.choice([1, 2, 3, 4, 5, 6, 8, 9, 10, 13, 16])
             radius = rng.choice([math.sqrt(m_) + rng.choice([-0.05, -1e-3, 1e-3, 0.05]), float(rng.randint(2, 5)) - rng.choice([0.02, 0.1, 0.2])])
+        if t % 9 == 1:
+            # window corners farther away than the radius: a radius just below an integer k on a domain wider than k elements in
+            # two directions (2-D: k >= 4; 3-D: k >= 3)
+            if t % 18 == 1:
+                dom, radius = [rng.randint(5, 7), rng.randint(5, 7), 0], float(rng.randint(4, 5)) - rng.choice([0.01, 0.05, 0.09])
+            else:
+                dom, radius = [rng.randint(4, 5), rng.randint(4, 5), rng.randint(3, 4)], 3.0 - rng.choice([0.01, 0.05, 0.15])
+            nel = dom[0] * dom[1] * max(dom[2], 1)
+            L = max(dom[0], dom[1], max(dom[2], 1))
         if radius > 9.5:
             radius = rng.uniform(0.3, 9.5)
         npd = sorted(rng.sample(range(nel), rng.randint(0, nel))) if rng.random() < 0.25 else None
